@@ -25,7 +25,7 @@ def witness_search(tier, seed):
     from simfile.sm import SMSimfile, SMChart
     import simfile
     vals = [None, "", "a", "x:y", ":180", "::", ":TIME=1:LEN=2", "60\\:240", "a;b", "c\\d", "e//f", "line1\nline2", " sp ", "cr\rlf\r\nend"]
-    keys = ["TITLE", "ATTACKS", "DISPLAYBPM", "FOO"]
+    keys = ["TITLE", "ATTACKS", "DISPLAYBPM", "FOO", "NOTESKIN"]
     for k, v in itertools.product(keys, vals):
         for extra in (None, ["x", "y:z"], [" padded ", "\n  line\n"]):
             sf = SMSimfile.blank()
